@@ -52,6 +52,10 @@ Floor(maj, min) ==
 ObsClass(f) == IF f = "2.1" THEN "2.0" ELSE f
 \* version given as gateway option: valid = the text is major.minor[.patch]
 GatewayClass(valid, maj, min) == IF ~valid THEN "1.4" ELSE ObsClass(Floor(maj, min))
+\* a heartbeat response from a node announces smart sleep in 2.0 and 2.1 only (2.2 has its own message for that; before 2.0 the
+\* message does not exist): a command for the node afterwards is held back exactly there
+HeartbeatClass(valid, maj, min) ==
+  IF valid /\ Floor(maj, min) \in {"2.0", "2.1"} THEN "held" ELSE "direct"
 \* version presented by a node (presentation of type 17/18 is rejected below 1.4 / when invalid);
 \* set/req tables are the same from 2.0 on
 NodeClass(valid, maj, min) ==
